@@ -1,6 +1,6 @@
 SPECIFICATION Spec
 CONSTANTS
   MaxLen = 4
-  Fixed <- AllDevs
+  Fixed <- DevsNone
 INVARIANT TypeOK
 PROPERTY Terminates
